@@ -93,6 +93,7 @@ func checkC13(c *Ctx) {
 	c.Clause("inside the collector each record call moves exactly its own counter by exactly one: RecordRequest→total, RecordResponse(ok)→successful xor failed, RecordRateLimitedRequest→rate-limited, RecordBackendRequest(name, ok)→that backend's total and its successful xor failed")
 	c.Clause("reading the in-flight counter and publishing the reading happen in one critical section per backend (two finishing requests cannot publish out of order); only the ±1 at request start/end and the constructor write the counter")
 	c.Clause("the status the outcome derives from is the last one written (an interim 1xx does not mask the final status)")
+	c.Clause("per-backend counters are keyed by name and a name identifies one backend (AddBackend refuses a listed name), so a backend's totals count that backend's requests only")
 	c.NotDecided("equality with an external tally; EMA arithmetic; behaviour above the 1000-backend cap")
 
 	c.collectorConservation()
@@ -240,6 +241,7 @@ func checkC13(c *Ctx) {
 	lockDiscipline(c, func(k string) bool {
 		return strings.HasPrefix(k, "metrics.Metrics.") || strings.HasPrefix(k, "metrics.BackendMetrics.") || k == "loadbalancer.Backend.ActiveConnections"
 	})
+	c.backendNamesUnique()
 	c.Floor("atomic64-aligned", atomic64Aligned(c, func(k string) bool { return strings.HasPrefix(k, "metrics.Metrics.") }), 4, "metrics counters operated on with 64-bit atomics")
 }
 
